@@ -131,7 +131,7 @@ func Glue(m *progen.Module, r progen.Rendering, style string) (string, map[strin
 		fmt.Fprintf(&im, "\timpls[reflect.TypeOf((*%s.LIface)(nil)).Elem()] = []any{%s.LImpl{S: \"l1\"}, %s.LImpl{S: \"l2\"}}\n", srcAlias, srcAlias, srcAlias)
 		for ii := range p.Ifaces {
 			it := &p.Ifaces[ii]
-			if !it.Exported() {
+			if !it.Exported() || it.Alias {
 				continue
 			}
 			for _, k := range it.PkgKeys() {
